@@ -792,6 +792,45 @@ pub fn run(c: &mut Ctx) {
             one_input(c, fam, idx, &m, kind);
         }
     }
+    // (a2) record data of every length from nothing to a dozen octets, for every type the library reads structurally: the
+    // accessors' arithmetic at the smallest sizes (a key of two octets, a bitmap of one, a salt length without salt)
+    // is reached by a length, not by chance
+    let fam = "small-rdata";
+    let types: Vec<u16> = (1..=110u16).chain([249, 250, 255, 256, 257, 32768, 32769, 65280]).filter(|t| w::layout(*t).is_some() || *t == 41).collect();
+    let per_type = 14 * 5;
+    let total = (types.len() * per_type) as u64;
+    for idx in c.cases(fam, total) {
+        if c.out_of_time() {
+            break;
+        }
+        let mut rng = c.case_rng(fam, idx);
+        let t = types[idx as usize / per_type];
+        let len = (idx as usize % per_type) / 5;
+        let rd: Vec<u8> = match idx % 5 {
+            0 => vec![0; len],
+            1 => vec![0xff; len],
+            2 => vec![1; len],
+            3 => (0..len).map(|i| i as u8).collect(),
+            _ => rng.bytes(len),
+        };
+        let mut m = w::header(rng.u16(), 0x8180, [1, 1, 0, if t == 41 { 1 } else { 0 }]);
+        m.extend_from_slice(b"\x01a\x07example\x00");
+        m.extend_from_slice(&t.to_be_bytes());
+        m.extend_from_slice(&[0, 1]);
+        // one record of the type in the answer section, owner by pointer; an OPT record goes to the additional section as well
+        for sec in 0..(if t == 41 { 2 } else { 1 }) {
+            if t == 41 && sec == 1 {
+                m.push(0);
+            } else {
+                m.extend_from_slice(&[0xC0, 12]);
+            }
+            m.extend_from_slice(&t.to_be_bytes());
+            m.extend_from_slice(&[0, 1, 0, 0, 0, 60]);
+            m.extend_from_slice(&(rd.len() as u16).to_be_bytes());
+            m.extend_from_slice(&rd);
+        }
+        one_input(c, fam, idx, &m, "small-rdata");
+    }
     // (b) exhaustive families on small messages: every pointer target at every name position
     let fam = "ptr-exh";
     let total = c.total(200, 4000);
@@ -898,7 +937,7 @@ pub fn run(c: &mut Ctx) {
         c.floor("records_accepted", 1000);
         c.floor("records_rejected", 100);
         c.floor("compressed_names", 1000);
-        for k in ["valid", "typed-hostile", "late-pointers", "count", "pointer-retarget", "pointer-inject", "pointer-cycle", "label-type", "rdlen", "truncate", "rdata-inner", "long-name", "pointer-chain", "random", "ptr-exhaustive"] {
+        for k in ["valid", "small-rdata", "typed-hostile", "late-pointers", "count", "pointer-retarget", "pointer-inject", "pointer-cycle", "label-type", "rdlen", "truncate", "rdata-inner", "long-name", "pointer-chain", "random", "ptr-exhaustive"] {
             c.floor(&format!("inputs_{}", k), 1);
         }
     }
